@@ -23,10 +23,13 @@ import (
 	"verif/harness/chain"
 )
 
-const (
-	D0      = "eth"
-	D1      = "usdc"
-	NActors = 4
+const NActors = 4
+
+// D0 and D1 are token0 and token1 of the pool under test. They are set per case by New: a concentrated pool keeps its
+// denoms in the order given at creation, and token0 sorts after token1 in half of the cases ("weth"/"usdc").
+var (
+	D0 = "eth"
+	D1 = "usdc"
 )
 
 var IncDenoms = []string{"inca", "incb"}
@@ -108,6 +111,10 @@ func (s *Sim) log(f string, a ...any) { s.Hist = append(s.Hist, fmt.Sprintf(f, a
 // New builds the chain, funds the actors, configures CL params and creates the pool.
 func New(rt *rapid.T, t *testing.T) *Sim {
 	c := chain.New(t)
+	D0 = "eth"
+	if rapid.Bool().Draw(rt, "token0SortsAfterToken1") {
+		D0 = "weth"
+	}
 	s := &Sim{C: c, Vol: map[string]*big.Int{D0: new(big.Int), D1: new(big.Int)}, IncentiveDeposited: map[string]*big.Int{}, Known: map[uint64]PosRec{}, Classes: map[string]int{}, MaxLiq: new(big.Int), InvSqrt2: new(big.Rat)}
 	huge, _ := new(big.Int).SetString("1000000000000000000000000000000000000000000", 10) // 1e42
 	for a := 0; a < NActors; a++ {
@@ -173,6 +180,9 @@ func New(rt *rapid.T, t *testing.T) *Sim {
 	s.PoolID = resp.PoolID
 	neighbour("neighbour-pool-with-larger-id")
 	s.class(fmt.Sprintf("spacing=%d", s.Spacing))
+	if D0 > D1 {
+		s.class("token0-sorts-after-token1")
+	}
 	if s.Spread.IsZero() {
 		s.class("zero-spread")
 	}
